@@ -129,7 +129,7 @@ def generate(pid, prop, reg):
     return obligations, functions, unbound, dropped, sorted(trusted)
 
 
-def run_native(pid, tier, seed, extra_args=()):
+def run_native(pid, tier, seed, extra_args=(), timeout=None):
     """Executable contracts on the real code (replay of stored witnesses, bounded stand-ins, cross-check)."""
     script = os.path.join(VERIF, 'native', f'{pid}.py')
     if not os.path.exists(script):
@@ -147,7 +147,7 @@ def run_native(pid, tier, seed, extra_args=()):
     cmd = [NATIVE_PY, script, '--tier', tier, '--seed', str(seed), '--out', out, *extra_args]
     try:
         p = subprocess.run(cmd, cwd=scratch, env=env, capture_output=True, text=True,
-                           timeout=3600 if tier == 'thorough' else 900)
+                           timeout=timeout or (3600 if tier == 'thorough' else 900))
         if not os.path.exists(out):
             if p.returncode < 0 and os.path.exists(out + '.current'):
                 # the real code crashed the interpreter: that is an outcome, not a checker error
@@ -203,6 +203,16 @@ def main(pid, tier='quick', seed=0, replay=None):
     if not os.environ.get('VERIF_EVIDENCE_DIR') and frontend.repo_root() == '/repo' and os.environ.get('VERIF_SAVE_HINTS'):
         solve.save_hints(results)
     native = run_native(pid, tier, seed)
+    # escalation: when the prover lost its grip (an obligation undecided / a function left the subset) and the quick bounded
+    # inputs found nothing, widen the bounded search once (thorough scope, capped) before concluding "nothing found"
+    lost = [r for r in results if r.status in ('unknown', 'error') and r.ob.kind == 'vc'] or unbound
+    if tier == 'quick' and lost and native and 'error' not in native and not native.get('failures'):
+        wider = run_native(pid, 'thorough', seed, timeout=int(os.environ.get('VERIF_ESCALATE_S', '600')))
+        if wider and 'error' not in wider:
+            wider['escalated'] = True
+            native = wider
+        else:
+            native['escalation'] = 'thorough scope did not finish within the cap: no additional verdict'
     # ---------------------------------------------------------------- verdicts
     proved = [r for r in results if r.status == 'proved']
     refuted = [r for r in results if r.status == 'refuted']
